@@ -665,6 +665,11 @@ func c46Check(r *vkit.Run, st *c46Stats, c *c46Case) {
 		class := v.Class
 		if v.Duty == pp.Malformed {
 			class = "malformed:" + v.Reason
+			if shape == "data-delivered-despite-close" {
+				// one cause whatever rule the header broke: the connection is closed without
+				// recording the error, so bytes already buffered still reach the application
+				class = "malformed"
+			}
 		}
 		if v.Duty == pp.NoHeader {
 			class = "no-header:" + v.Class
@@ -751,6 +756,31 @@ func c46(r *vkit.Run) {
 			c46Check(r, st, mk(g, "mutated", ms, c46Chunking(g, len(ms), len(mh), g.Intn(3)), kind, 0))
 		}
 	})
+	// fixed probes: the minimal witness of every deviation seen so far, at every tier and seed
+	probes := []string{
+		"PROXY UNKNOWN\r\nX",
+		"PROXY UNKNOWN ::1 ::1 1 2\r\nX",
+		"PROXY TCP6 0000:0000:0000:0000:0000:ffff:0102:0304 2001:db8::1 1 2\r\nX",
+		"PROXY TCP4 0000:0000:0000:0000:0000:ffff:0102:0304 0000:0000:0000:0000:0000:ffff:0506:0708 1 2\r\nX",
+		"PROXY TCP4 1.2.3.4 5.6.7.8 01 2\r\nX",
+		"PROXY TCP4 1.2.3.4 5.6.7.8 +1 2\r\nX",
+		"PROXY TCP4 1.2.3.4 5.6.7.8 1 2 3\r\nX",
+		"PROXY TCP5 1.2.3.4 5.6.7.8 1 2\r\nX",
+		"PROXY TCP6 2001:db8::1 2001:db8:::2 1 2\r\nX",
+		string(pp.SigV2) + "\x20\x00\x00\x00X",
+		string(pp.SigV2) + "\x20\x11\x00\x0c\x01\x02\x03\x04\x05\x06\x07\x08\x00\x01\x00\x02X",
+		string(pp.SigV2) + "\x20\x00\x00",
+		string(pp.SigV2) + "\x20\x00\x00\x05XY",
+		string(pp.SigV2) + "\x21\x12\x00\x0c\x01\x02\x03\x04\x05\x06\x07\x08\x00\x01\x00\x02X",
+		string(pp.SigV2) + "\x21\x21\x00\x24" + string(make([]byte, 10)) + "\xff\xff\x01\x02\x03\x04" + "\x20\x01\x0d\xb8" + string(make([]byte, 11)) + "\x01\x00\x01\x00\x02X",
+		"P", "PROX", "POST", "\r\n\r\n",
+	}
+	for i, p := range probes {
+		for mode := 0; mode < 3; mode++ {
+			g := r.Rng("probe", i, mode)
+			c46Check(r, st, mk(g, "probe", []byte(p), c46Chunking(g, len(p), len(p), mode), "fixed probe", 0))
+		}
+	}
 	nNo := r.N(3000, 100000)
 	vkit.Parallel(nNo, 0, func(i int) {
 		g := r.Rng("noheader", i)
